@@ -133,6 +133,9 @@ class End(asyncio.Transport):
         self.write(b"".join(lines))
 
     def close(self):
+        if getattr(self, "reset_unlogged", False):
+            self.reset_unlogged = False
+            self.net._log_close(self, by="reset")
         if self.closing or self.closed:
             return
         self.closing = True
@@ -146,6 +149,9 @@ class End(asyncio.Transport):
             self._schedule()
 
     def abort(self, exc=None):
+        if getattr(self, "reset_unlogged", False):
+            self.reset_unlogged = False
+            self.net._log_close(self, by="reset")
         if self.closed:
             return
         if not self.closing:
@@ -241,7 +247,12 @@ class End(asyncio.Transport):
             self.on_eof()
         if not self.closing:
             self.closing = True
-            self.net._log_close(self, by="reset")
+            if self.side == "srv" and self.conn.kind == "ctl":
+                # the server has not closed anything yet: its teardown is observed when it does (close() below), which may be
+                # several loop iterations later - handlers already started go on until then
+                self.reset_unlogged = True
+            else:
+                self.net._log_close(self, by="reset")
         self.closed = True
         self.outbuf.clear()
         self.net.loop.call_soon(self._lost, ConnectionResetError("simnet: reset by peer"))
@@ -276,6 +287,7 @@ class FakeServer:
         self.port = port
         self.owner = owner
         self.closed = False
+        self.serving = True
         self.orphan = False
         self.active = 0
         self._waiters = []
@@ -290,7 +302,7 @@ class FakeServer:
         return () if self.closed else tuple(self._sockets)
 
     def is_serving(self):
-        return not self.closed
+        return not self.closed and self.serving
 
     def get_loop(self):
         return self.net.loop
@@ -328,7 +340,11 @@ class FakeServer:
         await self.net.loop.create_future()
 
     async def start_serving(self):
-        pass
+        # (like asyncio.Server.start_serving: idempotent, and it yields to the loop once; the caller already holds the server, so
+        # whatever happens to it when this is cancelled is the caller's business)
+        if not self.serving:
+            self.serving = True
+        await self.net._gate("serving", self.port)
 
     async def __aenter__(self):
         return self
@@ -454,7 +470,7 @@ class Net:
             return plan
         return plan.pop(0) if len(plan) > 1 else plan[0]
 
-    async def start_server(self, cb, host=None, port=None, *, ssl=None, **kw):
+    async def start_server(self, cb, host=None, port=None, *, ssl=None, start_serving=True, **kw):
         s = CUR_SESSION.get()
         port = port or 0
         self.log("LsnTry", s=s, port=port)
@@ -475,6 +491,10 @@ class Net:
         self.listeners[port] = srv
         self.all_listeners.append(srv)
         self.log("LsnBound", s=s, port=port)
+        if not start_serving:
+            # asyncio semantics: bound, not listening yet, and no scheduling point after the bind; Server.start_serving() has it
+            srv.serving = False
+            return srv
         try:
             await self._gate("postbind", port)
         except BaseException:
@@ -489,7 +509,7 @@ class Net:
     # -- connections -------------------------------------------------------
     def connect(self, port, client_protocol, session=None, kind=None, host=None):
         srv = self.listeners.get(port)
-        if srv is None or srv.closed:
+        if srv is None or srv.closed or not srv.serving:
             raise ConnectionRefusedError(errno.ECONNREFUSED, "simnet: nothing listens on %r" % port)
         owner = session if session is not None else srv.owner
         if kind is None:
